@@ -1,3 +1,4 @@
 import TelProofs.Loop
 import TelProofs.Props.C08
 import TelProofs.Props.C03
+import TelProofs.Props.C05
